@@ -104,7 +104,7 @@ def m_calc(v: MVal, tag, e, pref=None, backtrack=True) -> MVal:
     sqlr = _sqlrules(v, pref, backtrack)
     return v.derive(
         cols=v.cols + (tag,), rows=f(v.rows), upper=None if v.upper is None else f(v.upper),
-        order_det=v.order_det and not sqlr, sql_state=None,
+        order_det=v.order_det and not sqlr, sql_state=None, pending_sort=False,
         hist=("calc", v.hist, tag, _t(e)),
     )
 
@@ -131,7 +131,7 @@ def m_sel(v: MVal, p, pref=None, backtrack=True) -> MVal:
     sqlr = _sqlrules(v, pref, backtrack)
     return v.derive(
         rows=f(v.rows), upper=None if v.upper is None else f(v.upper),
-        count_det=v.bag_det, order_det=v.order_det and not sqlr, sql_state=None,
+        count_det=v.bag_det, order_det=v.order_det and not sqlr, sql_state=None, pending_sort=False,
         hist=("sel", v.hist, _t(p)),
     )
 
